@@ -14,6 +14,228 @@ theorem sizeOK_of_tableOK {f : Fork} {t : OpTable} (h : tableOK f t = true) : Si
   simp only [rowOK, Bool.and_eq_true, beq_iff_eq] at this
   exact this.1.1.1.1.2
 
+/-! ### `sweep`: fuel and decomposition -/
+
+theorem sweep_nil (t : OpTable) (fuel off : Nat) : sweep t fuel off [] = ([], (off, [])) := by
+  cases fuel <;> rfl
+
+/-- Any two fuels that cover the input give the same sweep. -/
+theorem sweep_fuel (t : OpTable) : ∀ (f₁ f₂ off : Nat) (bs : List Nat),
+    bs.length ≤ f₁ → bs.length ≤ f₂ → sweep t f₁ off bs = sweep t f₂ off bs := by
+  intro f₁
+  induction f₁ with
+  | zero =>
+    intro f₂ off bs h₁ _
+    have : bs = [] := List.eq_nil_of_length_eq_zero (by omega)
+    subst this
+    rw [sweep_nil, sweep_nil]
+  | succ f₁ ih =>
+    intro f₂ off bs h₁ h₂
+    cases bs with
+    | nil => rw [sweep_nil, sweep_nil]
+    | cons b rest =>
+      cases f₂ with
+      | zero => simp at h₂
+      | succ f₂ =>
+        simp only [List.length_cons] at h₁ h₂
+        simp only [sweep]
+        split
+        · rfl
+        · have hd : (rest.drop (immLen t b)).length ≤ rest.length := by
+            rw [List.length_drop]; omega
+          rw [ih f₂ _ _ (by omega) (by omega)]
+
+theorem bytesOf_nil : bytesOf [] = [] := rfl
+
+theorem bytesOf_cons (it : Item) (is : List Item) :
+    bytesOf (it :: is) = it.2.op :: (it.2.imm ++ bytesOf is) := by
+  simp [bytesOf, Instr.bytes]
+
+theorem bytesOf_append (xs ys : List Item) : bytesOf (xs ++ ys) = bytesOf xs ++ bytesOf ys := by
+  simp [bytesOf]
+
+theorem bytesOf_singleton (it : Item) : bytesOf [it] = it.2.op :: it.2.imm := by
+  simp [bytesOf, Instr.bytes]
+
+/-- Sweeping the encoding of well-formed, chained items followed by `rest`
+emits exactly those items and continues with `rest`. -/
+theorem sweep_items (t : OpTable) : ∀ (items : List Item) (off fuel : Nat) (rest : List Nat),
+    OffsetsFrom off items →
+    (∀ it ∈ items, immLen t it.2.op = it.2.imm.length) →
+    (bytesOf items ++ rest).length ≤ fuel →
+    sweep t fuel off (bytesOf items ++ rest) =
+      (items ++ (sweep t rest.length (off + (bytesOf items).length) rest).1,
+       (sweep t rest.length (off + (bytesOf items).length) rest).2) := by
+  intro items
+  induction items with
+  | nil =>
+    intro off fuel rest _ _ hf
+    simp only [bytesOf_nil, List.nil_append, List.length_nil, Nat.add_zero] at hf ⊢
+    rw [sweep_fuel t fuel rest.length off rest hf (Nat.le_refl _)]
+  | cons it items ih =>
+    intro off fuel rest ho hw hf
+    obtain ⟨o, i⟩ := it
+    obtain ⟨hoff, ho'⟩ := ho
+    subst hoff
+    have hwi : immLen t i.op = i.imm.length := hw (o, i) (List.mem_cons_self ..)
+    have hw' : ∀ it ∈ items, immLen t it.2.op = it.2.imm.length :=
+      fun it h => hw it (List.mem_cons_of_mem _ h)
+    rw [bytesOf_cons] at hf ⊢
+    simp only [List.cons_append, List.append_assoc, List.length_cons, List.length_append] at hf ⊢
+    cases fuel with
+    | zero => omega
+    | succ fuel =>
+      simp only [sweep, hwi]
+      have hlt : ¬ (i.imm ++ (bytesOf items ++ rest)).length < i.imm.length := by
+        simp only [List.length_append]; omega
+      rw [if_neg hlt]
+      have htake : (i.imm ++ (bytesOf items ++ rest)).take i.imm.length = i.imm :=
+        List.take_left' rfl
+      have hdrop : (i.imm ++ (bytesOf items ++ rest)).drop i.imm.length = bytesOf items ++ rest :=
+        List.drop_left' rfl
+      rw [htake, hdrop]
+      have hlen : (bytesOf items ++ rest).length ≤ fuel := by
+        simp only [List.length_append]; omega
+      have ho'' : OffsetsFrom (o + 1 + i.imm.length) items := by
+        have : o + i.len = o + 1 + i.imm.length := by simp [Instr.len, Nat.add_assoc]
+        rw [← this]; exact ho'
+      rw [ih (o + 1 + i.imm.length) fuel rest ho'' hw' hlen]
+      have e : o + 1 + i.imm.length + (bytesOf items).length
+             = o + (i.imm.length + (bytesOf items).length + 1) := by omega
+      rw [e]
+
+/-! ### One call of `next` -/
+
+theorem next_nil (t : OpTable) (off : Nat) : next t ⟨[], off⟩ = (.none, ⟨[], off⟩) := rfl
+
+theorem next_short (t : OpTable) (hs : SizeOK t) (front : Nat) (tl : List Nat) (off : Nat)
+    (hf : front < 256) (hl : tl.length < immLen t front) :
+    next t ⟨front :: tl, off⟩ = (.none, ⟨front :: tl, off⟩) := by
+  have hsz := hs front hf
+  simp only [next, hsz, List.length_cons]
+  rw [if_pos (by omega)]
+
+theorem next_item (t : OpTable) (hs : SizeOK t) (front : Nat) (tl : List Nat) (off : Nat)
+    (hf : front < 256) (hl : immLen t front ≤ tl.length) :
+    next t ⟨front :: tl, off⟩ =
+      (.item (off, ⟨front, tl.take (immLen t front)⟩),
+       ⟨tl.drop (immLen t front), off + (1 + immLen t front)⟩) := by
+  have hsz : sizeOf t front = immLen t front + 1 := by rw [hs front hf, Nat.add_comm]
+  have hok : ∃ s c, fromSlice t (front :: tl.take (immLen t front)) = .ok s c := by
+    rw [fromSlice_ok_iff, List.length_take]
+    exact Nat.min_eq_left hl
+  obtain ⟨s, c, hsc⟩ := hok
+  simp only [next, hsz, List.length_cons, List.take_succ_cons, List.drop_succ_cons,
+    Nat.add_sub_cancel]
+  rw [if_neg (by omega)]
+  simp only [hsc]
+  rw [Nat.add_comm 1]
+
+/-! ### The history invariant -/
+
+theorem offsetsFrom_snoc : ∀ (items : List Item) (off : Nat) (it : Item),
+    OffsetsFrom off items → it.1 = off + (bytesOf items).length →
+    OffsetsFrom off (items ++ [it]) := by
+  intro items
+  induction items with
+  | nil =>
+    intro off it _ h
+    obtain ⟨o, i⟩ := it
+    exact ⟨by simpa [bytesOf] using h, trivial⟩
+  | cons x items ih =>
+    intro off it ho h
+    obtain ⟨o, i⟩ := x
+    obtain ⟨h₁, h₂⟩ := ho
+    refine ⟨h₁, ih _ it h₂ ?_⟩
+    rw [h, bytesOf_cons]
+    simp only [List.length_cons, List.length_append, Instr.len]
+    omega
+
+structure Inv (t : OpTable) (r : Run) : Prop where
+  np : r.panicked = false
+  bytes : bytesOf r.emitted ++ r.dis.buffer = r.written
+  off : r.dis.offset = (bytesOf r.emitted).length
+  offs : OffsetsFrom 0 r.emitted
+  wf : ∀ it ∈ r.emitted, immLen t it.2.op = it.2.imm.length
+  lt : ∀ b ∈ r.dis.buffer, b < 256
+
+theorem inv_init (t : OpTable) : Inv t {} :=
+  ⟨rfl, rfl, rfl, trivial, fun _ h => (by cases h), fun _ h => (by cases h)⟩
+
+theorem inv_step (t : OpTable) (hs : SizeOK t) (r : Run) (e : Ev)
+    (he : ∀ bs, e = Ev.write bs → ∀ b ∈ bs, b < 256) (hi : Inv t r) : Inv t (step t r e) := by
+  obtain ⟨np, bytes, off, offs, wf, lt⟩ := hi
+  cases e with
+  | write bs =>
+    refine ⟨np, ?_, off, offs, wf, ?_⟩
+    · show bytesOf r.emitted ++ (r.dis.buffer ++ bs) = r.written ++ bs
+      rw [← List.append_assoc, bytes]
+    · intro b hb
+      have hb' : b ∈ r.dis.buffer ++ bs := hb
+      rcases List.mem_append.mp hb' with h | h
+      · exact lt b h
+      · exact he bs rfl b h
+  | poll =>
+    obtain ⟨d, emitted, written, panicked⟩ := r
+    obtain ⟨buffer, offset⟩ := d
+    simp only at np bytes off offs wf lt
+    cases buffer with
+    | nil =>
+      simp only [step, next_nil]
+      exact ⟨np, bytes, off, offs, wf, lt⟩
+    | cons front tl =>
+      have hf : front < 256 := lt front (List.mem_cons_self ..)
+      by_cases hl : tl.length < immLen t front
+      · simp only [step, next_short t hs front tl offset hf hl]
+        exact ⟨np, bytes, off, offs, wf, lt⟩
+      · have hl' : immLen t front ≤ tl.length := Nat.le_of_not_lt hl
+        simp only [step, next_item t hs front tl offset hf hl']
+        refine ⟨np, ?_, ?_, ?_, ?_, ?_⟩
+        · show bytesOf (emitted ++ [(offset, ⟨front, tl.take (immLen t front)⟩)])
+              ++ tl.drop (immLen t front) = written
+          rw [bytesOf_append, bytesOf_singleton, ← bytes]
+          simp only [List.append_assoc, List.cons_append, List.take_append_drop]
+        · show offset + (1 + immLen t front)
+              = (bytesOf (emitted ++ [(offset, ⟨front, tl.take (immLen t front)⟩)])).length
+          rw [bytesOf_append, bytesOf_singleton]
+          simp only [List.length_append, List.length_cons, List.length_take, off]
+          rw [Nat.min_eq_left hl']
+          omega
+        · exact offsetsFrom_snoc _ _ _ offs (by simpa using off)
+        · intro it hit
+          rcases List.mem_append.mp hit with h | h
+          · exact wf it h
+          · rw [List.mem_singleton] at h
+            subst h
+            simp only [List.length_take]
+            exact (Nat.min_eq_left hl').symm
+        · intro b hb
+          exact lt b (List.mem_cons_of_mem _ (List.mem_of_mem_drop hb))
+
+theorem inv_foldl (t : OpTable) (hs : SizeOK t) : ∀ (h : List Ev) (r : Run),
+    BytesOK h → Inv t r → Inv t (h.foldl (step t) r) := by
+  intro h
+  induction h with
+  | nil => intro r _ hi; exact hi
+  | cons e h ih =>
+    intro r hb hi
+    rw [List.foldl_cons]
+    apply ih
+    · intro e' he'; exact hb e' (List.mem_cons_of_mem _ he')
+    · exact inv_step t hs r e (hb e (List.mem_cons_self ..)) hi
+
+theorem inv_run (t : OpTable) (hs : SizeOK t) (h : List Ev) (hb : BytesOK h) : Inv t (run t h) :=
+  inv_foldl t hs h {} hb (inv_init t)
+
+/-- What the invariant says about `decodeAll` of everything written. -/
+theorem inv_decodeAll (t : OpTable) (r : Run) (hi : Inv t r) :
+    decodeAll t r.written =
+      (r.emitted ++ (sweep t r.dis.buffer.length r.dis.offset r.dis.buffer).1,
+       (sweep t r.dis.buffer.length r.dis.offset r.dis.buffer).2) := by
+  unfold decodeAll
+  rw [← hi.bytes, sweep_items t r.emitted 0 _ r.dis.buffer hi.offs hi.wf (Nat.le_refl _),
+    Nat.zero_add, ← hi.off]
+
 theorem run_invariant (t : OpTable) (hs : SizeOK t) (h : List Ev) (hb : BytesOK h) :
     let r := run t h
     r.panicked = false ∧
@@ -22,7 +244,10 @@ theorem run_invariant (t : OpTable) (hs : SizeOK t) (h : List Ev) (hb : BytesOK 
     OffsetsFrom 0 r.emitted ∧
     (decodeAll t r.written).1 = r.emitted ++ (sweep t r.dis.buffer.length r.dis.offset r.dis.buffer).1 ∧
     (decodeAll t r.written).2 = (sweep t r.dis.buffer.length r.dis.offset r.dis.buffer).2 := by
-  sorry
+  intro r
+  have hi : Inv t r := inv_run t hs h hb
+  have hd := inv_decodeAll t r hi
+  exact ⟨hi.np, hi.bytes, hi.off, hi.offs, by rw [hd], by rw [hd]⟩
 
 theorem run_exhausted (t : OpTable) (hs : SizeOK t) (h : List Ev) (hb : BytesOK h)
     (hex : (next t (run t h).dis).1 = Next.none) :
@@ -31,7 +256,30 @@ theorem run_exhausted (t : OpTable) (hs : SizeOK t) (h : List Ev) (hb : BytesOK 
     (r.dis.offset, r.dis.buffer) = (decodeAll t r.written).2 ∧
     finish r.dis = (if (decodeAll t r.written).2.2 = [] then Finish.ok
                     else Finish.truncated (decodeAll t r.written).2.1 (decodeAll t r.written).2.2) := by
-  sorry
-
-end Disasm
-end EtkVerif
+  intro r
+  have hi : Inv t r := inv_run t hs h hb
+  have hd := inv_decodeAll t r hi
+  have hex' : (next t r.dis).1 = Next.none := hex
+  -- the sweep of the buffer emits nothing and leaves the buffer as the tail
+  have key : sweep t r.dis.buffer.length r.dis.offset r.dis.buffer
+      = ([], (r.dis.offset, r.dis.buffer)) := by
+    have hlt := hi.lt
+    generalize r.dis = d at hex' hlt
+    obtain ⟨buffer, offset⟩ := d
+    cases buffer with
+    | nil => rfl
+    | cons front tl =>
+      have hf : front < 256 := hlt front (List.mem_cons_self ..)
+      by_cases hl : tl.length < immLen t front
+      · simp only [List.length_cons, sweep]
+        rw [if_pos hl]
+      · rw [next_item t hs front tl offset hf (Nat.le_of_not_lt hl)] at hex'
+        cases hex'
+  rw [key] at hd
+  rw [hd]
+  simp only [List.append_nil]
+  refine ⟨trivial, trivial, ?_⟩
+  unfold finish
+  cases hbuf : r.dis.buffer with
+  | nil => simp
+  | cons a l => simp
